@@ -1,4 +1,4 @@
-import FcpptProofs.C08.Ops
+import FcpptProofs.C08.Order
 /-!
 # C08 — property theorems
 
@@ -135,6 +135,12 @@ theorem whole_grid_storage_order {d : List Int} (hne : d ≠ []) (hd : NonNeg d)
   intro p hp
   have hl := inRange_length ((mem_box (length_zeros d) p).mp hp)
   rw [offset_eq_lin p d hl.symm, linR_zeros d p hl]
+
+/-- a sub-range that lies inside the grid (`0 ≤ min`, `sup ≤ size`) is visited in strictly increasing
+    storage offset. -/
+theorem subrange_storage_order {mn sp d : Pos} (h : Within mn sp d) :
+    ((box mn sp).map (fun p => offset p d)).Pairwise (· < ·) :=
+  box_pairwise_offset h
 
 /-! ## the grid object: `get_unsafe`, `at_optional`, constructors -/
 
@@ -284,6 +290,7 @@ example : posRange [-1, 0, 2] [1, 1, 4] = .ok [[-1, 0, 2], [0, 0, 2], [-1, 0, 3]
 example : posRange [0, 2, 0] [2, 1, 2] = .ok [] ∧ rangeSize [0, 2, 0] [2, 1, 2] = 0 := ⟨by rfl, by decide⟩
 -- without the reset to `min` the carry would leave the box: the model's carry really resets
 example : next [1, 0] [0, 0] [2, 2] = [0, 1] := by decide
+example : Within [1, 0] [3, 2] [3, 2] := by simp [Within]
 example : NonNeg [3, 0, 2] ∧ contents [3, 0, 2] = 0 := by
   refine ⟨?_, by decide⟩; intro x hx; simp at hx; omega
 example : Denotes (⟨[2, 2], [10, 11, 12, 13]⟩ : Grid Int) (fun p => 10 + lin p [2, 2]) := by
